@@ -1,10 +1,12 @@
 #!/bin/sh
-# Builds the framework from files on disk only (offline): Coq development, extracted model runner, Rust harness.
+# Builds the framework from files on disk only (offline): Coq development, extracted model runner, Rust harnesses.
 set -e
 cd "$(dirname "$0")"
 export CARGO_NET_OFFLINE=true
 ( cd coq && coq_makefile -f _CoqProject -o Makefile >/dev/null && timeout 1500 make -j16 >/dev/null )
 ( cd extract && timeout 300 ./build.sh )
 cp -f /repo/Cargo.lock harness/Cargo.lock
-( cd harness && timeout 1700 cargo build --offline 2>&1 | tail -3 )
+cp -f /repo/Cargo.lock textharness/Cargo.lock
+( cd harness && timeout 1700 cargo build --offline 2>&1 | tail -2 )
+( cd textharness && timeout 900 cargo build --offline 2>&1 | tail -2 )
 echo setup done
